@@ -29,6 +29,8 @@ def build_sims():
     sims = []
     with quiet():
         m2 = _grid_mesh(2, 2, ElemType.QUAD4)
+        # pairs (Nn, Ne) for which the size of an array does not say where it is stored (SizeClass in Results.tla)
+        ambiguous = [_grid_mesh(nx, ny, et, L=float(nx), H=float(ny)) for nx, ny, et in ((1, 1, ElemType.QUAD4), (2, 1, ElemType.QUAD4), (2, 3, ElemType.TRI3), (2, 1, ElemType.TRI3))]
         m2t = _grid_mesh(2, 2, ElemType.TRI6)
         m3 = Mesher().Mesh_Extrude(Domain(Point(0, 0), Point(2, 1), 1.0), [], [0, 0, 1], [1], ElemType.HEXA8, isOrganised=True)
         el2 = Models.Elastic.Isotropic(2, E=10.0, v=0.3, planeStress=True, thickness=0.7)
@@ -36,10 +38,14 @@ def build_sims():
         sims.append(("Elastic", 2, 2, Simulations.Elastic(m2, el2, verbosity=False)))
         sims.append(("Elastic", 2, 2, Simulations.Elastic(m2t, el2, verbosity=False)))
         sims.append(("Elastic", 3, 3, Simulations.Elastic(m3, el3, verbosity=False)))
+        for m in ambiguous:
+            sims.append(("Elastic", 2, 2, Simulations.Elastic(m, el2, verbosity=False)))
+        sims.append(("Thermal", 2, 1, Simulations.Thermal(ambiguous[2], Models.Thermal(k=2.0, c=1.0), verbosity=False)))
         sims.append(("Thermal", 2, 1, Simulations.Thermal(m2, Models.Thermal(k=2.0, c=1.0), verbosity=False)))
         try:
             pf2 = Models.PhaseField(el2, Models.PhaseField.SplitType.Miehe, Models.PhaseField.ReguType.AT2, Gc=1.0, l0=0.5)
             sims.append(("PhaseField", 2, 2, Simulations.PhaseField(m2, pf2, verbosity=False)))
+            sims.append(("PhaseField", 2, 2, Simulations.PhaseField(ambiguous[1], pf2, verbosity=False)))
             pf3 = Models.PhaseField(el3, Models.PhaseField.SplitType.Miehe, Models.PhaseField.ReguType.AT2, Gc=1.0, l0=0.5)
             sims.append(("PhaseField", 3, 3, Simulations.PhaseField(m3, pf3, verbosity=False)))
         except Exception as ex:
@@ -60,8 +66,8 @@ def build_sims():
             sims.append(("ERR", 0, 0, f"WeakForms: {type(ex).__name__}: {ex}"))
         try:
             section = Mesher().Mesh_2D(Domain(Point(-0.25, -0.125), Point(0.25, 0.125)))
-            for dim, p2 in ((1, Point(3, 0)), (2, Point(1.8, 2.4)), (3, Point(2, 2, 1))):
-                beam = Models.Beam.Isotropic(dim, Line(Point(0, 0), p2, 1.0), section, 10.0, 0.25)
+            for dim, p2, h in ((1, Point(3, 0), 1.0), (2, Point(1.8, 2.4), 1.0), (3, Point(2, 2, 1), 1.0), (2, Point(1.8, 2.4), 1.5), (3, Point(2, 2, 1), 3.0)):
+                beam = Models.Beam.Isotropic(dim, Line(Point(0, 0), p2, h), section, 10.0, 0.25)
                 mesh = Mesher().Mesh_Beams([beam], elemType=ElemType.SEG2)
                 s = Simulations.Beam(mesh, Models.Beam.BeamStructure([beam]), verbosity=False)
                 sims.append(("Beam", dim, s.Get_dof_n(), s))
@@ -71,6 +77,7 @@ def build_sims():
             he = Models.HyperElastic.NeoHookean(2, 1.0, 10.0) if hasattr(Models.HyperElastic, "NeoHookean") else None
             if he is not None:
                 sims.append(("HyperElastic", 2, 2, Simulations.HyperElastic(m2, he, verbosity=False)))
+                sims.append(("HyperElastic", 2, 2, Simulations.HyperElastic(ambiguous[1], he, verbosity=False)))
         except Exception as ex:
             sims.append(("ERR", 0, 0, f"HyperElastic: {type(ex).__name__}: {ex}"))
     return sims
@@ -98,6 +105,8 @@ def candidates(kind, dim, dofn, sim, fields):
     for f, arr in (("u", u), ("v", v), ("a", a)):
         mat = arr.reshape(Nn, nd)
         c[(f, "all")] = arr
+        if kind in ("Elastic", "HyperElastic", "PhaseField"):
+            c[(f, "matrix")] = np.hstack([mat, np.zeros((Nn, 3 - nd))])
         c[(f, "norm")] = np.linalg.norm(mat, axis=1)
         for i in range(nd):
             c[(f, str(i))] = mat[:, i]
@@ -108,6 +117,28 @@ def candidates(kind, dim, dofn, sim, fields):
         ku = (K @ u).reshape(Nn, nd)
         for i in range(nd):
             c[("Ku", str(i))] = ku[:, i]
+        # generalised strains, internal forces and stresses: element means of the Gauss-point values, rows in the documented order
+        g = sim.mesh.groupElem
+        ue = u[g.Get_assembly_e(nd)]
+        B = np.asarray(g.Get_beam_B_e_pg(sim.structure))
+        D = np.asarray(sim.structure.Calc_D_e_pg(g))
+        eps = np.einsum("epij,ej->epi", B, ue)
+        frc = np.einsum("epij,epj->epi", D, eps)
+        for f, arr in (("Eb", eps.mean(1)), ("Fb", frc.mean(1)), ("Sb", np.asarray(sim._Calc_Sigma_e_pg(eps)).mean(1))):
+            c[(f, "all")] = arr
+            for i in range(arr.shape[1]):
+                c[(f, str(i))] = arr[:, i]
+        # the axial strain is also known without the library's operator: elongation along the member over its length
+        X = sim.mesh.coord[g.connect[:, [0, -1]] if g.connect.shape[1] == 2 else g.connect[:, [0, 1]]]
+        t = X[:, 1] - X[:, 0]
+        Lg = np.linalg.norm(t, axis=1)
+        t = t / Lg[:, None]
+        nt = 1 if nd == 1 else (2 if nd == 3 else 3)
+        um = u.reshape(Nn, nd)[:, :nt]
+        con = g.connect[:, [0, -1]] if g.connect.shape[1] == 2 else g.connect[:, [0, 1]]
+        axial = np.einsum("ei,ei->e", um[con[:, 1]] - um[con[:, 0]], t[:, :nt]) / Lg
+        if not np.allclose(axial, c[("Eb", "0")], rtol=1e-9, atol=1e-14):
+            c[("Eb", "0")] = axial  # the independent value wins: a scaled operator then shows as a mismatch
     if kind == "Elastic":
         from EasyFEA.FEM import MatrixType
 
@@ -134,12 +165,28 @@ def candidates(kind, dim, dofn, sim, fields):
     return c
 
 
-def tokenise(arr, cands):
-    """all candidate tokens the array equals (several when a vector has a single component)"""
+NODE_FIELDS = ("u", "v", "a", "d", "Ku")
+
+
+def to_elements(sim, ref):
+    """node values -> element values: the mean over each element's nodes, group by group"""
+    Nn = sim.mesh.Nn
+    x = np.asarray(ref, dtype=float).reshape(Nn, -1)
+    return np.concatenate([x[g.connect].mean(1) for g in sim.mesh.Get_list_groupElem(sim.mesh.dim)])
+
+
+def tokenise(arr, cands, sim=None, nodal=None):
+    """all candidate tokens the array equals IN THE REQUESTED FORM (several when a vector has a single component)"""
     arr = np.asarray(arr, dtype=float)
     out = []
     for tok, ref in cands.items():
         ref = np.asarray(ref, dtype=float)
+        if nodal is not None:
+            stored_at_nodes = tok[0] in NODE_FIELDS
+            if nodal and not stored_at_nodes:
+                continue  # smoothing to the nodes: Results.tla judges the form only
+            if not nodal and stored_at_nodes:
+                ref = to_elements(sim, ref)
         if arr.size == ref.size and arr.size > 0 and np.allclose(arr.ravel(), ref.ravel(), rtol=1e-9, atol=1e-14):
             out.append(list(tok))
     return out
@@ -154,23 +201,23 @@ def record(ctx, seed):
             continue
         fields = set_random_state(kind, sim, rng)
         cands = candidates(kind, dim, dofn, sim, fields)
-        for name in sim.Results_Available():
+        avail = list(sim.Results_Available())
+        base = dict(sim=kind, dim=dim, dofn=dofn, Nn=int(sim.mesh.Nn), Ne=int(sim.mesh.Ne), avail=avail)
+        for name in avail:
             for nodeValues in (False, True):
                 try:
                     with quiet():
                         val = sim.Result(name, nodeValues=nodeValues)
                 except Exception as ex:
-                    rows.append(dict(sim=kind, dim=dim, dofn=dofn, name=name, tokens=[["raises", type(ex).__name__]], node=nodeValues))
+                    rows.append(dict(base, name=name, tokens=[["raises", type(ex).__name__]], node=nodeValues, size=0))
                     continue
-                if val is None or np.ndim(val) == 0:
+                if val is None:
+                    rows.append(dict(base, name=name, tokens=[["raises", "None"]], node=nodeValues, size=0))
                     continue
-                # element-based quantities are compared in their element form, nodal ones in nodal form
-                toks = tokenise(val, cands)
-                if not toks:
-                    continue  # the other form (node<->element conversion) or an unmodelled quantity
-                rows.append(dict(sim=kind, dim=dim, dofn=dofn, name=name, tokens=toks, node=nodeValues))
-            if not any(r["sim"] == kind and r["dim"] == dim and r["dofn"] == dofn and r["name"] == name for r in rows):
-                rows.append(dict(sim=kind, dim=dim, dofn=dofn, name=name, tokens=[["other", "other"]], node=False))
+                if np.ndim(val) == 0:
+                    continue
+                toks = tokenise(val, cands, sim, nodeValues) or [["other", "other"]]
+                rows.append(dict(base, name=name, tokens=toks, node=nodeValues, size=int(np.size(val))))
     return rows, notes
 
 
@@ -243,6 +290,22 @@ def repeated_requests(ctx, seed):
     ctx.section("repeated_requests", requests=n, passes=3)
 
 
+def binding_selftest(ctx, rows):
+    """the judgement must reject corrupted records: one value too many, a token of another component, a component without its whole"""
+    from harness.core import MachineryError
+
+    good = next(r for r in rows if r["sim"] == "Elastic" and r["name"] == "Sxx" and not r["node"])
+    bad = [dict(good, size=good["size"] + 1), dict(good, tokens=[["S", "1"]]), dict(good, avail=[n for n in good["avail"] if n != "Stress"]), good]
+    path = os.path.join(ctx.scratch, "results_corrupted.json")
+    json.dump(bad, open(path, "w"))
+    res = ctx.tlc("Results", "Results.cfg", workers=1, env={"RESULT_TABLE": path}, timeout=600)
+    got = [v["verdict"] for v in res.prints.get("VERDICT", [])]
+    want = ["wrong-form", "mismatch", "orphan", "ok"]
+    if sorted(got) != sorted(want):
+        raise MachineryError(f"Results.tla does not reject corrupted records: verdicts {got}, expected {want}")
+    ctx.section("binding_selftest", corrupted_records=3, verdicts=want)
+
+
 def run(ctx):
     rows, notes = record(ctx, ctx.seed)
     path = os.path.join(ctx.scratch, "results.json")
@@ -259,6 +322,11 @@ def run(ctx):
         ctx.count(1, distinct_key=(v["sim"], v["dim"], v["dofn"], v["name"]))
         if v["verdict"] == "unmodelled":
             unmod.add(f"{v['sim']}:{v['name']}")
+        elif v["verdict"] == "wrong-form":
+            form = "nodal" if v["node"] else "element"
+            ctx.violation(f"form/{v['sim']}{v['dim']}D/{v['name']}/{form}/{v['class']}", f"{v['sim']} ({v['dim']}D) on a mesh with {v['Nn']} nodes and {v['Ne']} elements: Result('{v['name']}', nodeValues={v['node']}) returns {v['size']} values, which is not one {v['expected'][0]}[{v['expected'][1]}] entry per {'node' if v['node'] else 'element'}", v)
+        elif v["verdict"] == "orphan":
+            ctx.violation(f"orphan/{v['sim']}{v['dim']}D/{v['name']}", f"{v['sim']} ({v['dim']}D): the component '{v['name']}' is advertised without the whole result it belongs to", v)
         elif v["verdict"] == "mismatch":
             t0 = v["tokens"][0]
             if t0[0] == "other":
@@ -266,6 +334,16 @@ def run(ctx):
             else:
                 what = "returns " + " = ".join(f"{t[0]}[{t[1]}]" for t in v["tokens"])
             ctx.violation(f"name/{v['sim']}{v['dim']}D/{v['name']}", f"{v['sim']} ({v['dim']}D, {v['dofn']} dofs/node): Result('{v['name']}') {what}, it must be {v['expected'][0]}[{v['expected'][1]}]", v)
+    classes = {}
+    for sim_kind, cl in (res.prints.get("CLASSES") or [[]])[-1]:
+        classes.setdefault(sim_kind, set()).add(cl)
+    need = {"one-element", "equal", "multiple", "generic"}
+    if not need <= classes.get("Elastic", set()):
+        from harness.core import MachineryError
+
+        raise MachineryError(f"Results: size classes {sorted(need - classes.get('Elastic', set()))} are not witnessed by an Elastic mesh")
+    ctx.section("size_classes", **{k: sorted(v) for k, v in classes.items()})
+    binding_selftest(ctx, rows)
     derived(ctx)
     repeated_requests(ctx, ctx.seed)
     ctx.section("names", rows=len(rows), unmodelled=sorted(unmod), unavailable=notes)
